@@ -139,7 +139,7 @@ def repair_prog(rng, pid, damage):
             "opts": {"damage": damage, "which": rng.randint(0, 20)}}
 
 
-def copy_prog(rng, pid, collide):
+def copy_prog(rng, pid, collide, k=0):
     nid = [0]
     base = rand_entries(rng, PLAIN + ODD[:3], 3, nid)
     sources = [base]
@@ -160,7 +160,10 @@ def copy_prog(rng, pid, collide):
             base.append({"path": "cd/f", "kind": "file", "seed": 901, "size": 100, "mtime": T0, "ctime": T0, "inode": 901})
             dirs = ["cd"]
         p["collide"] = "src/" + rng.choice(dirs)
-        p["collide_pre"] = rng.choice(["tree", "data", "none"])
+        # the destination holds neither / only the tree / only the data blob of the colliding id - in turn
+        p["collide_pre"] = ["none", "tree", "data"][k % 3]
+        if p["collide_pre"] == "none":
+            p["opts"]["twice"] = False
         p["cfg"]["chunk"] = 8192
         p["dest_cfg"]["chunk"] = 8192
         p.pop("dest_pre", None)
@@ -208,7 +211,7 @@ def run(ctx):
     for i in range(n["repair"]):
         add(repair_prog(rng, "c12-%d-p%d" % (ctx.seed, i), ["none", "data", "tree"][i % 3]))
     for i in range(n["copy"]):
-        add(copy_prog(rng, "c12-%d-c%d" % (ctx.seed, i), collide=i % 4 == 0))
+        add(copy_prog(rng, "c12-%d-c%d" % (ctx.seed, i), collide=i % 4 == 0, k=i // 4))
     pf = os.path.join(ctx.out, "programs.ndjson")
     open(pf, "w").write("\n".join(json.dumps(p) for p in progs.values()) + "\n")
     trace = os.path.join(ctx.out, "trace.ndjson")
